@@ -1,59 +1,7 @@
-(* C18 -- _get_eligible_cpus over the kernel-printed status file, cpu_affinity([]) and the
-   diagnosis of ineligible CPUs; the assembled theorem "model meets specification". *)
+(* C18 -- cpu_affinity([]) and the diagnosis of CPU lists the kernel refuses;
+   the assembled theorem "model meets specification". *)
 From PV Require Import C18.Spec C18.Proofs C18.ProofsReq.
 Require Import Lia.
-
-(* ------------------------------------------------ decimal printer *)
-Lemma dec_val_snoc l d : dec_val (l ++ [d]) = dec_val l * 10 + (d - 48).
-Proof. unfold dec_val. rewrite fold_left_app. reflexivity. Qed.
-
-Lemma pr_dec_aux_spec : forall fuel n, 0 <= n < 10 ^ Z.of_nat fuel -> (0 < fuel)%nat ->
-  all_digits (pr_dec_aux fuel n) = true /\ pr_dec_aux fuel n <> [] /\ dec_val (pr_dec_aux fuel n) = n.
-Proof.
-  induction fuel as [|f IH]; intros n Hn Hf; [lia|].
-  cbn [pr_dec_aux]. destruct (n <? 10) eqn:E.
-  - apply Z.ltb_lt in E. split; [|split].
-    + cbn [all_digits forallb]. unfold is_digit.
-      replace (48 <=? 48 + n) with true by (symmetry; apply Z.leb_le; lia).
-      replace (48 + n <=? 57) with true by (symmetry; apply Z.leb_le; lia). reflexivity.
-    + discriminate.
-    + unfold dec_val. cbn [fold_left]. unfold dec_step. lia.
-  - apply Z.ltb_ge in E.
-    assert (Hf0 : (0 < f)%nat).
-    { destruct f; [|lia]. change (10 ^ Z.of_nat 1) with 10 in Hn. lia. }
-    assert (Hq : 0 <= n / 10 < 10 ^ Z.of_nat f).
-    { split; [apply Z.div_pos; lia|]. apply Z.div_lt_upper_bound; [lia|].
-      rewrite Nat2Z.inj_succ, Z.pow_succ_r in Hn by lia. lia. }
-    destruct (IH (n / 10) Hq Hf0) as [A [B C]].
-    assert (Hm : 0 <= n mod 10 < 10) by (apply Z.mod_pos_bound; lia).
-    split; [|split].
-    + unfold all_digits in *. rewrite forallb_app, A. cbn [forallb]. unfold is_digit.
-      replace (48 <=? 48 + n mod 10) with true by (symmetry; apply Z.leb_le; lia).
-      replace (48 + n mod 10 <=? 57) with true by (symmetry; apply Z.leb_le; lia). reflexivity.
-    + intros H. apply app_eq_nil in H. destruct H as [_ H]. discriminate.
-    + rewrite dec_val_snoc, C. pose proof (Z.div_mod n 10). lia.
-Qed.
-
-Lemma pr_dec_spec n : 0 <= n < 1024 ->
-  all_digits (pr_dec n) = true /\ pr_dec n <> [] /\ dec_val (pr_dec n) = n.
-Proof.
-  intros H. apply pr_dec_aux_spec; [|lia]. change (10 ^ Z.of_nat 20) with 100000000000000000000. lia.
-Qed.
-
-(* ------------------------------------------------ the printed list of one range *)
-Lemma runs_from_zrange a m : forall b, runs_from a b (zrange_n (b + 1) m) = [(a, b + Z.of_nat m)].
-Proof.
-  induction m as [|m IH]; intros b; cbn [zrange_n runs_from].
-  - rewrite Z.add_0_r. reflexivity.
-  - rewrite Z.eqb_refl, IH. f_equal. f_equal. lia.
-Qed.
-
-Lemma pr_cpulist_range a m : (0 < m)%nat ->
-  pr_cpulist (zrange_n a (S m)) = pr_dec a ++ 45 :: pr_dec (a + Z.of_nat m).
-Proof.
-  intros Hm. unfold pr_cpulist, runs. cbn [zrange_n]. rewrite runs_from_zrange.
-  cbn [map join pr_run]. replace (a =? a + Z.of_nat m) with false by (symmetry; apply Z.eqb_neq; lia). reflexivity.
-Qed.
 
 Lemma zrange_n_In a n x : In x (zrange_n a n) <-> a <= x < a + Z.of_nat n.
 Proof.
@@ -61,138 +9,90 @@ Proof.
   - split; [tauto|lia].
   - rewrite IH. lia.
 Qed.
+Lemma zrange_In a b x : In x (zrange a b) <-> a <= x < b.
+Proof. unfold zrange. rewrite zrange_n_In. lia. Qed.
 
-(* ------------------------------------------------ the regex scanner on that text *)
-Lemma drop_prefix_app p l : drop_prefix p (p ++ l) = Some l.
-Proof. induction p as [|a p IH]; cbn [drop_prefix app]; [reflexivity|]. rewrite Z.eqb_refl. exact IH. Qed.
-
-Lemma span_digits_app d t : all_digits d = true ->
-  match t with [] => true | c :: _ => negb (is_digit c) end = true ->
-  span_digits (d ++ t) = (d, t).
+(* ------------------------------------------------ _get_eligible_cpus never fails otherwise than with ValueError *)
+Lemma parse_item_class it : (exists l, parse_item it = Val l) \/ parse_item it = Exc ValueError.
 Proof.
-  intros Hd Ht. induction d as [|c d IH]; cbn [app].
-  - destruct t as [|c t]; [reflexivity|]. cbn [span_digits]. apply negb_true_iff in Ht. rewrite Ht. reflexivity.
-  - unfold all_digits in Hd. cbn [forallb] in Hd. apply andb_split in Hd. destruct Hd as [H1 H2].
-    cbn [span_digits]. rewrite H1, (IH H2). reflexivity.
+  unfold parse_item. destruct (partition_dash it) as [first last].
+  unfold py_int. destruct (parse_int first) as [a|]; cbn [of_option obind]; [|right; reflexivity].
+  destruct (parse_int match last with [] => first | _ :: _ => last end) as [b|]; cbn [of_option obind];
+    [left; eexists; reflexivity|right; reflexivity].
 Qed.
-
-Lemma re_search_pre X : re_search (status_pre ++ X) = re_search X.
-Proof. reflexivity. Qed.
-
-Lemma re_search_here s m : s <> [] -> re_here s = Some m -> re_search s = Some m.
-Proof. intros Hs H. destruct s; [congruence|]. cbn [re_search]. rewrite H. reflexivity. Qed.
-
-Lemma re_here_range a b post : 0 <= a < 1024 -> 0 <= b < 1024 ->
-  re_here (status_lit ++ (pr_dec a ++ 45 :: pr_dec b) ++ 10 :: post) = Some (pr_dec a, pr_dec b).
+Lemma mapM_parse_class its : (exists l, mapM parse_item its = Val l) \/ mapM parse_item its = Exc ValueError.
 Proof.
-  intros Ha Hb. destruct (pr_dec_spec a Ha) as [A1 [A2 A3]]. destruct (pr_dec_spec b Hb) as [B1 [B2 B3]].
-  unfold re_here. rewrite drop_prefix_app.
-  rewrite <- app_assoc. rewrite <- app_comm_cons.
-  rewrite (span_digits_app (pr_dec a) (45 :: pr_dec b ++ 10 :: post) A1 eq_refl).
-  destruct (pr_dec a) as [|x xs] eqn:Ea; [congruence|].
-  rewrite (span_digits_app (pr_dec b) (10 :: post) B1 eq_refl).
-  destruct (pr_dec b) as [|y ys] eqn:Eb; [congruence|]. reflexivity.
+  induction its as [|it r IH]; cbn [mapM]; [left; eexists; reflexivity|].
+  destruct (parse_item_class it) as [[l ->]| ->]; cbn [obind]; [|right; reflexivity].
+  destruct IH as [[ls ->]| ->]; cbn [obind]; [left; eexists; reflexivity|right; reflexivity].
 Qed.
-
-(* ------------------------------------------------ processes of the plain class *)
-Lemma plain_shape p : plain_eligb p = true ->
-  exists a m, (0 < m)%nat /\ p_elig p = zrange_n a (S m) /\ p_mask p = p_elig p.
+Lemma eligible_class k pid p : kget pid k = Some p ->
+  (exists l, get_eligible_cpus pid k = Val l) \/ get_eligible_cpus pid k = Exc ValueError.
 Proof.
-  unfold plain_eligb. intros H. apply andb_split in H. destruct H as [H H3]. apply andb_split in H. destruct H as [H1 H2].
-  apply beqb_eq in H1. apply Nat.leb_le in H3.
-  unfold contiguousb in H2. destruct (p_elig p) as [|a r] eqn:E; [discriminate|].
-  apply beqb_eq in H2. unfold zrange in H2.
-  replace (Z.to_nat (a + Z.of_nat (length (a :: r)) - a)) with (length (a :: r)) in H2 by lia.
-  cbn [length] in H2, H3. destruct (length r) as [|m] eqn:El; [lia|].
-  exists a, (S m). split; [lia|]. split; [exact H2|exact H1].
+  intros Hg. unfold get_eligible_cpus. rewrite Hg.
+  destruct (find_list_line (split_on 10 (k_status p))) as [v|]; [|left; eexists; reflexivity].
+  destruct (contains 45 v); [|left; eexists; reflexivity].
+  destruct (mapM_parse_class (split_on 44 v)) as [[l ->]| ->]; cbn [obind]; [left; eexists; reflexivity|right; reflexivity].
 Qed.
-
-Lemma eligible_plain k pid p : kget pid k = Some p ->
-  (forall x, In x (p_elig p) -> 0 <= x < 1024) -> plain_eligb p = true ->
-  get_eligible_cpus pid k = Val (p_elig p).
+(* whatever error started the diagnosis, it ends in ValueError *)
+Lemma diagnose_value k pid p cpus b : kget pid k = Some p -> diagnose pid cpus b k = Exc ValueError.
 Proof.
-  intros Hg Hrng Hp. destruct (plain_shape p Hp) as [a [m [Hm [He Hmask]]]].
-  assert (Ha : 0 <= a < 1024) by (apply Hrng; rewrite He; apply zrange_n_In; lia).
-  assert (Hb : 0 <= a + Z.of_nat m < 1024) by (apply Hrng; rewrite He; apply zrange_n_In; lia).
-  unfold get_eligible_cpus. rewrite Hg. unfold k_status. rewrite Hmask, He, re_search_pre.
-  rewrite (pr_cpulist_range a m Hm).
-  rewrite (re_search_here _ (pr_dec a, pr_dec (a + Z.of_nat m))).
-  - destruct (pr_dec_spec a Ha) as [_ [_ ->]]. destruct (pr_dec_spec _ Hb) as [_ [_ ->]].
-    unfold zrange. replace (Z.to_nat (a + Z.of_nat m + 1 - a)) with (S m) by lia. reflexivity.
-  - discriminate.
-  - apply re_here_range; assumption.
-Qed.
-
-Lemma eligible_val k pid p : kget pid k = Some p -> exists l, get_eligible_cpus pid k = Val l.
-Proof.
-  intros Hg. unfold get_eligible_cpus. rewrite Hg. destruct (re_search (k_status p)) as [[d1 d2]|]; eexists; reflexivity.
+  intros Hg. unfold diagnose. destruct (eligible_class k pid p Hg) as [[l ->]| ->]; [|reflexivity].
+  destruct (existsb _ cpus); [reflexivity|]. destruct b; reflexivity.
 Qed.
 
 (* ------------------------------------------------ cpu_affinity([]) *)
 Lemma meets_aff_empty k pid p exp : kget pid k = Some p ->
-  (forall x, In x (p_elig p) -> 0 <= x < 1024) -> plain_eligb p = true ->
+  (forall x, In x (p_elig p) -> 0 <= x < 1024) -> p_elig p <> [] ->
   spec_req pid (Affinity (Some [])) k = Some exp -> run_req pid (Affinity (Some [])) k = exp.
 Proof.
-  intros Hg Hrng Hp. unfold spec_req, run_req, cpu_affinity. rewrite Hg. intros [= <-].
-  rewrite (eligible_plain k pid p Hg Hrng Hp). unfold pl_cpu_affinity_set.
-  rewrite (build_set_ok _ Hrng). unfold sys_sched_setaffinity. rewrite Hg.
-  rewrite (filter_all (fun c => memz c (dedup (p_elig p)))).
-  2: { intros x Hx. rewrite memz_dedup. apply memz_In. exact Hx. }
-  destruct (plain_shape p Hp) as [a [m [_ [He _]]]].
-  destruct (p_elig p) eqn:E; [rewrite He in E; discriminate|]. reflexivity.
+  intros Hg Hrng Hne. unfold spec_req, run_req, cpu_affinity. rewrite Hg. intros [= <-].
+  unfold pl_cpu_affinity_set.
+  rewrite build_set_ok by (intros c Hc; apply zrange_In in Hc; lia).
+  unfold sys_sched_setaffinity. rewrite Hg.
+  rewrite (filter_all (fun c => memz c (dedup (zrange 0 1024)))).
+  2: { intros x Hx. rewrite memz_dedup. apply memz_In. apply zrange_In. apply Hrng. exact Hx. }
+  destruct (p_elig p) eqn:E; [congruence|]. reflexivity.
 Qed.
 
 (* ------------------------------------------------ only nonexistent / ineligible CPUs *)
-Lemma existsb_dedup f l : existsb f (dedup l) = existsb f l.
-Proof.
-  destruct (existsb f l) eqn:E.
-  - apply existsb_exists in E. destruct E as [x [Hx Hf]]. apply existsb_exists. exists x. split; [apply nodup_In; exact Hx|exact Hf].
-  - apply not_true_iff_false. intros H. apply existsb_exists in H. destruct H as [x [Hx Hf]].
-    apply nodup_In in Hx. assert (existsb f l = true) by (apply existsb_exists; exists x; tauto). congruence.
-Qed.
-
 Lemma meets_aff_invalid k pid p c cs exp : kget pid k = Some p ->
-  (forall x, In x (p_elig p) -> 0 <= x < 1024) -> plain_eligb p = true ->
   all_in (c :: cs) (p_elig p) = false ->
-  existsb (fun v => negb (fits_long v)) (c :: cs) = false ->
   spec_req pid (Affinity (Some (c :: cs))) k = Some exp -> run_req pid (Affinity (Some (c :: cs))) k = exp.
 Proof.
-  intros Hg Hrng Hp Hall Hhuge. unfold spec_req, run_req, cpu_affinity. rewrite Hg, Hall.
+  intros Hg Hall. unfold spec_req, run_req, cpu_affinity. rewrite Hg, Hall.
   destruct (none_in (c :: cs) (p_elig p)) eqn:Hnone; [|discriminate]. intros [= <-].
   assert (Hout : forall x, In x (c :: cs) -> memz x (p_elig p) = false).
   { intros x Hx. unfold none_in in Hnone. rewrite forallb_forall in Hnone. apply negb_true_iff. apply Hnone. exact Hx. }
-  unfold pl_cpu_affinity_set, c_build_set. rewrite existsb_dedup, Hhuge.
-  destruct (existsb (fun v => v =? -1) (dedup (c :: cs))) eqn:Em1.
-  - unfold diagnose. destruct (eligible_val k pid p Hg) as [l ->].
-    match goal with |- context [if ?b then _ else _] => destruct b end; reflexivity.
-  - unfold sys_sched_setaffinity. rewrite Hg. rewrite filter_none.
-    2: { intros x Hx. apply not_true_iff_false. intros Hm. apply memz_In in Hm. apply filter_In in Hm.
-         destruct Hm as [Hm _]. apply nodup_In in Hm. pose proof (Hout x Hm) as Hf.
-         apply memz_In in Hx. congruence. }
-    unfold diagnose. rewrite (eligible_plain k pid p Hg Hrng Hp).
-    replace (existsb _ (dedup (c :: cs))) with true; [reflexivity|].
-    symmetry. apply existsb_exists. exists c. split; [apply nodup_In; left; reflexivity|].
-    rewrite (Hout c (or_introl eq_refl)). apply orb_true_r.
+  unfold pl_cpu_affinity_set, c_build_set.
+  destruct (existsb (fun v => v =? -1) (dedup (c :: cs))); [rewrite (diagnose_value k pid p _ _ Hg); reflexivity|].
+  destruct (existsb (fun v => negb (fits_long v)) (dedup (c :: cs))); [rewrite (diagnose_value k pid p _ _ Hg); reflexivity|].
+  unfold sys_sched_setaffinity. rewrite Hg. rewrite filter_none.
+  2: { intros x Hx. apply not_true_iff_false. intros Hm. apply memz_In in Hm. apply filter_In in Hm.
+       destruct Hm as [Hm _]. apply nodup_In in Hm. pose proof (Hout x Hm) as Hf.
+       apply memz_In in Hx. congruence. }
+  rewrite (diagnose_value k pid p _ _ Hg). reflexivity.
 Qed.
 
 (* ------------------------------------------------ assembled *)
 Theorem model_meets_spec k pid p r exp :
   wf_kernelb k = true -> kget pid k = Some p -> wf_procb k p = true -> pid <> 0 ->
-  (uses_eligible p r = true -> plain_eligb p = true) -> huge_cpu r = false ->
   spec_req pid r k = Some exp -> run_req pid r k = exp.
 Proof.
-  intros Hk Hg Hwf Hpid Hplain Hhuge Hspec.
+  intros Hk Hg Hwf Hpid Hspec.
   pose proof (wf_procb_facts k p Hwf) as F.
   unfold wf_kernelb in Hk. apply andb_split in Hk. destruct Hk as [_ Hnr]. apply Z.leb_le in Hnr.
+  assert (Hne : p_elig p <> []).
+  { intros E. pose proof (wf_mask_ne p F) as Hm. pose proof (wf_mask_sub p F) as Hs.
+    destruct (p_mask p) as [|x xs]; [congruence|]. specialize (Hs x (or_introl eq_refl)). rewrite E in Hs. destruct Hs. }
   destruct r as [v|c v|cpus|res lim].
   - exact (meets_nice k pid p v exp Hg Hspec).
   - exact (meets_ionice k pid p c v exp Hg (wf_io p F) Hspec).
   - destruct cpus as [[|c cs]|].
-    + exact (meets_aff_empty k pid p exp Hg (wf_elig_rng p F) (Hplain eq_refl) Hspec).
+    + exact (meets_aff_empty k pid p exp Hg (wf_elig_rng p F) Hne Hspec).
     + destruct (all_in (c :: cs) (p_elig p)) eqn:Hall.
       * exact (meets_aff_valid k pid p c cs exp Hg (wf_elig_rng p F) Hall Hspec).
-      * apply (meets_aff_invalid k pid p c cs exp Hg (wf_elig_rng p F)); try assumption.
-        apply Hplain. unfold uses_eligible. rewrite Hall. reflexivity.
+      * exact (meets_aff_invalid k pid p c cs exp Hg Hall Hspec).
     + exact (meets_aff_get k pid p exp Hg Hnr (wf_mask_sorted p F) Hspec).
   - exact (meets_rlimit k pid p res lim exp Hg Hpid Hspec).
 Qed.
